@@ -25,12 +25,21 @@ type C14Config struct {
 	Out      string   `json:"out"`            // "", "-", "FILE", "MISSINGDIR"
 	// OutExists: the -o FILE already exists (with longer, unrelated content) before the run
 	OutExists bool `json:"out_exists,omitempty"`
+	// InPlace: -o names the (single) input file itself
+	InPlace bool `json:"in_place,omitempty"`
 	// SelNames: the selector mentions something besides $ ($file, a global of the program)
 	SelNames bool `json:"sel_names,omitempty"`
 	Missing  int      `json:"missing"`        // index of a file argument that does not exist (-1: none)
 	Dir      int      `json:"dir"`            // index of a file argument that is a directory (-1: none)
 	UsesFile bool     `json:"uses_file"`      // the program prints $file
 	HasBFEF  bool     `json:"has_bfef"`       // the program has BEGINFILE / ENDFILE rules of its own
+}
+
+func (c *C14Config) outName() string {
+	if c.InPlace && len(c.Files) > 0 {
+		return c.Files[0].Name
+	}
+	return "out.json"
 }
 
 func (c *C14Config) data(i int) []byte { return []byte(strings.Join(c.Files[i].Docs, "\n")) }
@@ -56,7 +65,7 @@ func (c *C14Config) runCLI(progFile bool, stdin bool, out string, prog string, s
 	case "-":
 		args = append(args, "-o", "-")
 	case "FILE":
-		args = append(args, "-o", "out.json")
+		args = append(args, "-o", c.outName())
 	case "MISSINGDIR":
 		args = append(args, "-o", "nodir/out.json")
 	case "DEVFULL":
@@ -69,7 +78,7 @@ func (c *C14Config) runCLI(progFile bool, stdin bool, out string, prog string, s
 	} else {
 		args = append(args, "--", prog)
 	}
-	if out == "FILE" && c.OutExists {
+	if out == "FILE" && c.OutExists && !c.InPlace {
 		files["out.json"] = []byte(c14OldOut)
 	}
 	var in []byte
@@ -102,7 +111,7 @@ func (c *C14Config) runCLI(progFile bool, stdin bool, out string, prog string, s
 		co.stderr += " [killed by " + res.Signal + "]"
 	}
 	if out == "FILE" {
-		data, rerr := osReadFile(res.Dir + "/out.json")
+		data, rerr := osReadFile(res.Dir + "/" + c.outName())
 		co.outFile, co.outFileErr = data, rerr != nil
 		res.Cleanup()
 	}
@@ -208,7 +217,7 @@ func c14Check(c *C14Config) string {
 			return fmt.Sprintf("-o - prints %q, which is not the program's output followed by what -o FILE wrote (%q)", clip(dash.stdout), clip(string(main.outFile)))
 		}
 	}
-	if c.Out == "FILE" && wantExit != 0 && !main.outFileErr && lib.Class != "ok" && !(c.OutExists && string(main.outFile) == c14OldOut) {
+	if c.Out == "FILE" && wantExit != 0 && !main.outFileErr && lib.Class != "ok" && !(c.OutExists && string(main.outFile) == c14OldOut) && !(c.InPlace && bytes.Equal(main.outFile, c.data(0))) {
 		return fmt.Sprintf("the program failed, yet -o FILE was written (now %q)", clip(string(main.outFile)))
 	}
 	// (2) -f == inline
@@ -359,8 +368,14 @@ func genC14(t *rapid.T) (*C14Config, []string) {
 			labels = append(labels, "directory-input")
 		}
 	}
+	// -o names the input file itself: the document is rewritten in place
+	if c.Out == "FILE" && !c.Stdin && len(c.Files) == 1 && c.Missing < 0 && c.Dir < 0 && rapid.IntRange(0, 3).Draw(t, "inplace") == 0 {
+		c.InPlace = true
+		c.OutExists = false
+		labels = append(labels, "-o-is-the-input-file")
+	}
 	// the same path named twice: it is read twice, in the positions given
-	if !c.Stdin && c.Missing < 0 && c.Dir < 0 && rapid.IntRange(0, 7).Draw(t, "dupfile") == 0 {
+	if !c.Stdin && !c.InPlace && c.Missing < 0 && c.Dir < 0 && rapid.IntRange(0, 7).Draw(t, "dupfile") == 0 {
 		c.Files = append(c.Files, c.Files[rapid.IntRange(0, len(c.Files)-1).Draw(t, "dupwhich")])
 		labels = append(labels, "same-file-twice")
 	}
@@ -392,7 +407,7 @@ func genC14(t *rapid.T) (*C14Config, []string) {
 
 func TestC14(t *testing.T) {
 	rec := start(t, "C14", "exploration",
-		"configurations: program given inline or with -f FILE x input on stdin / one named file / 2-3 named files (also the same path twice) / a missing file / a directory among them x 0-2 -r selectors x -o absent / - / a path (new, or already existing with longer content) / a path in a missing directory / /dev/full (creatable, every write fails); one input in eight is not clean JSON text (byte order mark, NUL, surrounding whitespace, trailing garbage, truncated, empty, CRLF); programs and inputs from the C02 / C09 / C07 / C11 generators, including runs ending in each error kind, degenerate program texts (empty, blank, comment only, empty rules, a bare pattern), and program texts with one line longer than 64 KiB; each configuration is materialised in a private directory. Oracles: (1) stdout of the binary = stdout of lang.EvalProgram (+ GetRootJson text for -o -), exit status 0 iff the library returned nil and -o could be satisfied, otherwise 1 with a diagnostic; (2) -f == inline; (3) stdin == the same bytes in a named file for programs not printing $file; (4) -o FILE bytes == what -o - prints after the program's own output; (5) file and selector order through the $file / $ traces of the C02 programs; (6) -r E P == BEGINFILE { $ = E } P for one selector and programs without BEGINFILE / ENDFILE rules; (7) missing input, directory input, -o with several inputs, unwritable -o path: non-zero status and a diagnostic, never a stack trace. Non-trivial: >= 2 of {-f, >= 2 files, >= 1 selector, -o} or an error path. distinct = distinct configuration.")
+		"configurations: program given inline or with -f FILE x input on stdin / one named file / 2-3 named files (also the same path twice) / a missing file / a directory among them x 0-2 -r selectors x -o absent / - / a path (new, already existing with longer content, or the input file itself) / a path in a missing directory / /dev/full (creatable, every write fails); one input in eight is not clean JSON text (byte order mark, NUL, surrounding whitespace, trailing garbage, truncated, empty, CRLF); programs and inputs from the C02 / C09 / C07 / C11 generators, including runs ending in each error kind, degenerate program texts (empty, blank, comment only, empty rules, a bare pattern), and program texts with one line longer than 64 KiB; each configuration is materialised in a private directory. Oracles: (1) stdout of the binary = stdout of lang.EvalProgram (+ GetRootJson text for -o -), exit status 0 iff the library returned nil and -o could be satisfied, otherwise 1 with a diagnostic; (2) -f == inline; (3) stdin == the same bytes in a named file for programs not printing $file; (4) -o FILE bytes == what -o - prints after the program's own output; (5) file and selector order through the $file / $ traces of the C02 programs; (6) -r E P == BEGINFILE { $ = E } P for one selector and programs without BEGINFILE / ENDFILE rules; (7) missing input, directory input, -o with several inputs, unwritable -o path: non-zero status and a diagnostic, never a stack trace. Non-trivial: >= 2 of {-f, >= 2 files, >= 1 selector, -o} or an error path. distinct = distinct configuration.")
 	defer rec.Finish()
 	rec.Assume("the library interpreter (lang.EvalProgram + GetRootJson) is the reference for what the binary must print; its own correctness is the subject of the other properties")
 	rec.Replayer("config", func(raw json.RawMessage) error {
